@@ -510,6 +510,15 @@ def run_check(main):
     try:
         rc = main()
     except MachineryFailure as e:
+        ck = CURRENT[0]
+        if ck is not None and ck.violations:
+            # violations recorded before the harness gave up (typically an
+            # anti-vacuity guard that fires BECAUSE everything failed) are
+            # reported; the guard is kept as a note
+            ck.note("harness stopped early: %s" % e)
+            ck.assume("the run stopped early; clauses after that point were "
+                      "not evaluated")
+            sys.exit(ck.finish())
         print("MACHINERY-FAILURE: %s" % e)
         sys.exit(2)
     except Exception as e:
